@@ -16,7 +16,7 @@ RULE = ('triples (u,v,w) of linear units of one dimension (every table symbol wi
 SHARDS = {'quick': 16, 'thorough': 16}
 MIN_NONTRIVIAL = {'quick': 6000, 'thorough': 150000}
 REQUIRED_CLASSES = ['atom-pair', 'compound-pair', 'named-vs-expansion', 'system-symbol', 'array', 'scalar', 'zero', 'negative',
-                    'extreme', 'reciprocal', 'bare-number-to-rad', 'merged-fractional-exponents', 'square-of-half-integer-dimension-unit', 'refusal', 'refusal-with-quantity-target', 'target-quantity', 'roundtrip', 'via-intermediate', 'same-object-history']
+                    'extreme', 'reciprocal', 'bare-number-to-rad', 'merged-fractional-exponents', 'square-of-half-integer-dimension-unit', 'refusal', 'refusal-dimensionless-unit-to-angle', 'refusal-with-quantity-target', 'target-quantity', 'roundtrip', 'via-intermediate', 'same-object-history']
 REQUIRED_MONITORS = ['value_compares', 'roundtrip_compares', 'path_compares', 'refusal_fingerprint_compares', 'history_step_compares']
 ASSUMPTIONS = ['units_ref factors come from the published tables', 'rtol 1e-9',
                'temperature (Cel, degF) and logarithmic symbols are excluded here (C05)',
@@ -192,6 +192,15 @@ def cases(rng, tier, shard, nshards, ctx):
             d = rng.choice(ctx['dimkeys'])
             a, b = rng.choice(ctx['bydim'][d]), rng.choice(ctx['bydim'][d])
             yield dict(t='toq', u=['a', a[0], a[1], 1, 1], v=['a', b[0], b[1], 1, 1], k=rng.choice([2.0, 0.5, 10.0, 3.25]), x=x, xc=xc, arr=arr)
+        elif r > 0.985:
+            zero = tuple([0] * 8)
+            ang = tuple([0] * 7 + [1])
+            za = [a for a in ctx['bydim'].get(zero, []) + [a for d_, L in ctx['bydim'].items() if not any(d_) for a in L]]
+            aa = [a for d_, L in ctx['bydim'].items() if tuple(int(x) if getattr(x, 'denominator', 1) == 1 else x for x in d_) == ang for a in L]
+            if za and aa:
+                a, b = rng.choice(za), rng.choice(aa)
+                yield dict(t='refuse', u=['a', a[0], a[1], 1, 1], v=['a', b[0], b[1], 1, 1], x=x if x != 0 else 1.0, xc=xc, arr=arr, abse=rng.random() < 0.3,
+                           op=rng.choice(['to', 'value', 'to-quantity']), k=rng.choice([3.0, 0.5, 8.0]))
         else:
             u = gen_compound(rng, ctx, rng.randint(1, 3))
             v = gen_compound(rng, ctx, rng.randint(1, 3))
@@ -356,7 +365,11 @@ def _run(case, ctx):
         if du == dv or tuple(-d for d in du) == dv:
             return outcome(skip='same-or-reciprocal-dimension')
         if not any(du) and not any(dv[:7]):
-            return outcome(skip='dimensionless-to-angle-not-demanded')
+            # only a BARE number converts to radians; a dimensionless quantity written in a unit (%, ppth, [pi], PR ...) has
+            # the dimension vector zero, an angle has not: refused like every other pair of differing dimension
+            if not ut:
+                return outcome(skip='bare-number-to-angle-is-the-allowed-conversion')
+            classes.append('refusal-dimensionless-unit-to-angle')
         classes.append('refusal')
         q = Q(list(xs), ut, abse=0.25) if (arr and case['abse']) else (Q(xs[0], ut, abse=0.25) if case['abse'] else mk())
         fp0 = fingerprint(q)
